@@ -92,7 +92,8 @@ fn ops<T: Sc>(t: &mut Toks, cx: &mut Ctx) -> String {
                 let mut rd = pc.clone(); let mut ok = true;
                 for _ in 0..n { if rd.is_empty() { ok = false; break; } rd = r_deriv(&rd); }
                 match &dn { Ok(z) => cx.check(ok && same_vec(&coeffs(z), &rd), "derivative_n"), Err(_) => cx.check(!ok, "derivative_n panicked within the admissible orders") }
-                match &da { Ok(v) => cx.check(ok && !rd.is_empty() && *v == r_eval(&rd, x), "derivative_at"), Err(_) => cx.check(!ok || rd.is_empty(), "derivative_at panicked within the admissible orders") }
+                // (order = degree + 1 is inside the quantified orders: the derivative is the empty = zero polynomial and its value is 0)
+                match &da { Ok(v) => cx.check(ok && *v == (if rd.is_empty() { T::zero() } else { r_eval(&rd, x) }), "derivative_at"), Err(_) => cx.check(!ok, "derivative_at panicked within the admissible orders 0..degree+1") }
             }
         }
     }
